@@ -111,7 +111,8 @@ def rich_values():
 
 
 def BOUNDS(tier):
-    return {"values": len(values()), "rich": len(rich_values())}
+    return {"values": len(values()), "rich": len(rich_values()), "history_values": len(history_values()),
+            "history_length": 2 if tier == "quick" else 3}
 
 
 def units(tier):
@@ -145,6 +146,10 @@ def cases(unit, tier):
         for i in range(n):
             for j in range(n):
                 yield ["history", i, j]
+                if tier != "quick":
+                    # thorough: every ordered triple (a memo of the last value only, an eviction)
+                    for k in range(n):
+                        yield ["history", i, j, k]
         for mode in ("binary", "text"):
             for how in ("getattr-delegation", "attribute-rebound"):
                 yield ["rotate", mode, how]
@@ -417,7 +422,8 @@ def run_case(case):
         return Result(outcome=["shared-message", len(viol)], violations=viol[:3])
     if case[0] == "history":
         hv = history_values()
-        a, b = hv[case[1]], hv[case[2]]
+        seq = [hv[x] for x in case[1:]]
+        a, b = seq[0], seq[-1]
         viol = []
         out = []
         for Rec, mode in ((RecBinary, "binary"), (RecText, "text")):
@@ -426,8 +432,8 @@ def run_case(case):
             f1 = Rec()
             d1 = FileDestination(file=f1)
             f1.calls[:] = []
-            d1(dict(BASE, v=a))
-            d1(dict(BASE, v=b))
+            for val in seq:
+                d1(dict(BASE, v=val))
             after = written(f1)
             # the reference: the real encoder on a destination that has seen nothing else ... in a
             # process whose module-level state has been told to forget (world.fresh) cannot be had
@@ -438,11 +444,11 @@ def run_case(case):
             f2.calls[:] = []
             d2(dict(BASE, v=b))
             alone = written(f2)
-            if len(after) != 2 or len(alone) != 1:
+            if len(after) != len(seq) or len(alone) != 1:
                 viol.append(("history:write-count:" + mode, {"a": repr(a), "b": repr(b)}))
                 continue
             bad_line = False
-            for pos, val in ((0, a), (1, b)):
+            for pos, val in enumerate(seq):
                 # both lines: which of two equal-comparing values a memo saw first depends on what this
                 # worker process ran before
                 try:
@@ -454,12 +460,12 @@ def run_case(case):
                     break
                 if repr(got_v) != repr(_model_encoding(val)):
                     # repr() tells -0.0 from 0.0, True from 1 and 1 from 1.0, which == does not
-                    viol.append(("history:line-is-not-the-encoding-of-its-own-message:" + mode, {"pair": [repr(a), repr(b)], "position": pos, "decoded": repr(got_v), "want": repr(_model_encoding(val))}))
+                    viol.append(("history:line-is-not-the-encoding-of-its-own-message:" + mode, {"sequence": [repr(x) for x in seq], "position": pos, "decoded": repr(got_v), "want": repr(_model_encoding(val))}))
             if bad_line:
                 continue
-            if after[1] != alone[0]:
-                viol.append(("history:line-depends-on-earlier-message:" + mode, {"earlier": repr(a), "value": repr(b), "line_after": repr(after[1])[:200], "line_alone": repr(alone[0])[:200]}))
-            out.append(repr(after[1])[:120])
+            if after[-1] != alone[0]:
+                viol.append(("history:line-depends-on-earlier-message:" + mode, {"earlier": repr(a), "value": repr(b), "line_after": repr(after[-1])[:200], "line_alone": repr(alone[0])[:200]}))
+            out.append(repr(after[-1])[:120])
         return Result(outcome=["history", out], nontrivial=case[1] != case[2], violations=viol[:2])
     if case[0] == "rotate":
         mode, how = case[1], case[2]
